@@ -21,6 +21,7 @@ SYSCALL = Call(r"(nix|socket2|libc)::.*|<?(std::net|std::os::unix::net|socket2|s
                label="syscall")
 CLEAR = [Call(A("(store|swap)"), on=IOF, transitive=False), Call(r"may::io::sys::IoData::reset|.*::io_reset|.*::reset_io", transitive=False)]
 YIELD = Call(r"may::yield_now::yield_with_io", transitive=False)
+DATA_CALLS = {"read", "recv", "recv_from", "recvfrom", "recvmsg", "write", "send", "send_to", "sendto", "sendmsg", "readv", "writev", "read_vectored", "write_vectored", "peek", "peek_from"}
 
 def flag_zero(a):
     ld = is_call_result(A("load"))
@@ -40,6 +41,14 @@ def check(ctx):
             io_srcs.append((adt, im))
     if len(io_srcs) < 13:
         ctx.missing("R-SIB", ES, "io-sources", "expected ≥13 io EventSource impls, found %d" % len(io_srcs))
+    # io sources constructed by the datagram front-ends (derived from the code: who calls <source>::new)
+    dgram_srcs = {}
+    for adt, im in io_srcs:
+        for gid, lst in ctx.callers_of(re.escape(adt) + "::new").items():
+            if gid.startswith("may::net::udp::UdpSocket::") or gid.startswith("may::os::unix::net::UnixDatagram::"):
+                dgram_srcs.setdefault(adt, set()).add(gid)
+    if len(dgram_srcs) < 4:
+        ctx.missing("R-SIB", ES, "datagram-sources", "expected >=4 io sources constructed by UdpSocket / UnixDatagram front-ends, found %s" % sorted(dgram_srcs))
     for adt, im in sorted(io_srcs):
         short = adt.rsplit("::", 1)[-1]
         sub = [norm(m["id"]) for m in im["methods"] if m["n"] == "subscribe"]
@@ -86,7 +95,18 @@ def check(ctx):
         ctx.ob("R-SIB", d.id, "done/no-clear-before-yield:" + short, bool(es) and not bad2, "nothing clears io_flag between the re-check and the yield" if es and not bad2 else
                "%s::done clears io_flag between its re-check and yield_with_io: an edge that arrived in between is lost and the coroutine stays suspended" % short, d.where(sorted(ys)[0]))
         ctx.must_follow(d.id, YIELD, Call(r"may::io::sys::co_io_result", transitive=False), "done/result-after-resume:" + short, "after a resume the passed-in result (timeout) is looked at first", rule="R-SIB")
-        ctx.mo_sites
+        # a source that serves a datagram socket moves exactly one message per completion: after its data syscall no second data syscall
+        # runs in the same iteration (a second recv concatenates two datagrams into one message / a second send splits the accounting)
+        if adt in dgram_srcs:
+            data = set(x for x in sysc if (callee_name(d.node(x)) or "").rsplit("::", 1)[-1] in DATA_CALLS)
+            if not data:
+                ctx.missing("R-SIB", d.id, "done/one-message-per-completion:" + short, "no data-moving syscall (%s) found in %s::done" % ("/".join(sorted(DATA_CALLS)), short))
+            else:
+                r = an.reach(d, [q for x in data for q in an.after(d, x)], blocked=clr | ys)
+                bad = sorted(x for x in data if x in r)
+                ctx.ob("R-SIB", d.id, "done/one-message-per-completion:" + short, not bad, "%s::done (used by a datagram socket) performs one data syscall per iteration" % short if not bad else
+                       "%s::done serves a datagram socket (%s) and can perform a second data syscall after the first one in the same completion: two datagrams are returned as one message "
+                       "(boundaries lost) and the next receive waits for a datagram that was already consumed" % (short, sorted(dgram_srcs[adt])[0]), d.where(bad[0]) if bad else d.where(sorted(data)[0]))
     # ---- front-ends
     n_fe = 0
     for f in sorted(ctx.prog.fns.values(), key=lambda x: x.id):
